@@ -320,3 +320,48 @@ def c18_known(f, line, impl, model):
             return False                      # canonical input: nothing lenient about it
         return impl == format(int.from_bytes(payload, 'big'), 'x')
     return False
+
+
+def c09_modulus_one(f, line, impl, spec):
+    """C09-modulus-one-pow-zero-bits: modulus m = 1 and exponent_bits = 0 — pow_bounded_exp /
+    multi_exponentiate_bounded_exp return `params.one`, which is 1 (= m, not canonical) for m = 1.
+    Fixed forms: Montgomery form 1, retrieve() 0 (`0 1`); boxed: retrieve() also 1 (`n:1 n:1`), and the
+    `retrieve() < modulus` debug assertion panics in debug builds.  Spec: `0 0` / `n:0 n:0`."""
+    t = line.split()
+    if t[0] == 'c09.powb' and len(t) == 9:
+        m, k = t[4], t[8]
+    elif t[0] == 'c09.multib' and len(t) == 8:
+        m, k = t[4], t[6]
+    else:
+        return False
+    if m.lstrip('0') != '1' or k != '0':
+        return False
+    n = t[3]
+    if t[1] == 'boxed':
+        return spec == f'{n}:0 {n}:0' and impl in (f'{n}:1 {n}:1', 'panic')
+    return spec == '0 0' and impl == '0 1'
+
+
+def c07_mul_mod_special_carry_overflow(f, line, impl, model):
+    t = line.split()
+    if len(t) != 5 or t[0] not in ('c07.u.mul_mod_special', 'c07.b.mul_mod_special'):
+        return False
+    try:
+        n, a, b, c = int(t[1]), int(t[2], 16), int(t[3], 16), int(t[4], 16)
+    except ValueError:
+        return False
+    B = 1 << 64
+    if n < 2 or not (1 <= c < B):
+        return False
+    K = B ** n
+    prod = a * b
+    t1 = prod % K + (prod // K) * c
+    carry = t1 // K
+    if carry != B - 1:
+        return False
+    if impl == 'panic':
+        return True
+    s = t1 % K + ((carry + 1) % B) * c          # wrapped: (carry + 1) == 0
+    rhs2 = ((s // K - 1) % B) & c
+    r = (s % K - rhs2) % K
+    return impl == (f'{r:x}' if t[0].startswith('c07.u.') else f'{n}:{r:x}')
